@@ -21,17 +21,18 @@ Record config := {
   ready_on_error : bool;      (* listenerReady set even when net.Listen failed *)
   close_on_cancel : bool;     (* Run closes the listener when it returns because of Stop *)
   accept_retry : bool;        (* a transient Accept error (descriptor exhaustion) is retried after a back-off *)
+  untrack_late : bool;        (* the connection leaves Stop's table only after its socket is closed *)
   has_unbind_route : bool;
   has_onclose : bool
 }.
 
 Definition fixed_cfg : config :=
   {| recovery := true; handler_rec := true; wg_last := true; add_before_accept := true;
-     stop_interrupts := true; ready_on_error := false; close_on_cancel := true; accept_retry := true;
+     stop_interrupts := true; ready_on_error := false; close_on_cancel := true; accept_retry := true; untrack_late := true;
      has_unbind_route := true; has_onclose := true |}.
 Definition pinned_cfg : config :=
   {| recovery := true; handler_rec := false; wg_last := false; add_before_accept := false;
-     stop_interrupts := false; ready_on_error := true; close_on_cancel := false; accept_retry := false;
+     stop_interrupts := false; ready_on_error := true; close_on_cancel := false; accept_retry := false; untrack_late := false;
      has_unbind_route := true; has_onclose := true |}.
 
 (* ---------------------------------------------------------------- *)
@@ -51,11 +52,13 @@ Inductive item :=
 | IHello.                                   (* TLS handshake bytes *)
 
 (* deferred teardown of the connection goroutine, in execution order *)
-Inductive tstep := TWgDone | TWaitHandlers | TSockClose | TOnClose.
+Inductive tstep := TWgDone | TWaitHandlers | TSockClose | TOnClose | TUntrack.
 
+Definition teardown_core (cfg : config) : list tstep :=
+  if untrack_late cfg then [TWaitHandlers; TSockClose; TUntrack; TOnClose]
+  else [TUntrack; TWaitHandlers; TSockClose; TOnClose].
 Definition teardown_of (cfg : config) : list tstep :=
-  if wg_last cfg then [TWaitHandlers; TSockClose; TOnClose; TWgDone]
-  else [TWgDone; TWaitHandlers; TSockClose; TOnClose].
+  if wg_last cfg then teardown_core cfg ++ [TWgDone] else TWgDone :: teardown_core cfg.
 
 Inductive cpc :=
 | CInit                               (* goroutine started, defers installed *)
@@ -257,6 +260,7 @@ Definition conn_step (cfg : config) (s : state) (c : conn) : option (conn * effe
                interrupted := interrupted c; inflight := inflight c; hs := hs c; started := started c;
                ended := ended c; unbind_seen := unbind_seen c; read_after_unbind := read_after_unbind c;
                sock_closed := true; onclose := onclose c; wgdone := wgdone c |}, ENone)
+    | TUntrack => Some (set_pc c (CTeardown rest), ENone)      (* untrackConn: Stop's pass no longer reaches it *)
     | TOnClose =>
       if negb (has_onclose cfg) then Some (set_pc c (CTeardown rest), ENone)
       else if onclose_held s then None
@@ -408,7 +412,16 @@ Definition interrupt (c : conn) : conn :=
      interrupted := true; inflight := inflight c; hs := hs c; started := started c; ended := ended c;
      unbind_seen := unbind_seen c; read_after_unbind := read_after_unbind c;
      sock_closed := sock_closed c; onclose := onclose c; wgdone := wgdone c |}.
-Definition interrupt_all (cs : list conn) : list conn := map interrupt cs.
+(* is the connection still in the server's table (trackConn .. untrackConn)? *)
+Definition is_untrack (t : tstep) : bool := match t with TUntrack => true | _ => false end.
+Definition tracked (c : conn) : bool :=
+  match pc c with
+  | CTeardown todo => existsb is_untrack todo
+  | CDone => false
+  | _ => true
+  end.
+Definition interrupt_tracked (c : conn) : conn := if tracked c then interrupt c else c.
+Definition interrupt_all (cs : list conn) : list conn := map interrupt_tracked cs.
 
 (* what the environment does to a connection *)
 Definition env_send (it : item) (c : conn) : conn :=
